@@ -8,6 +8,7 @@ import (
 	"math"
 	"os"
 	"sync/atomic"
+	"time"
 	"unicode/utf8"
 
 	"github.com/twpayne/go-geom"
@@ -199,4 +200,33 @@ func emptySliceVariants(t geom.T) []geom.T {
 		v2 = tt.Clone()
 	}
 	return []geom.T{v, v2}
+}
+
+// reverseHung is set once a Reverse call on a geometry without coordinates did not return; later
+// calls of the same run are not made (each would leave another goroutine spinning for good).
+var reverseHung atomic.Bool
+
+// reverseReturns calls rev - a Reverse method on a geometry without a layout, hence without
+// coordinates: nothing to do - under a watchdog. The wait is generous (the call takes
+// nanoseconds when it returns at all), so a loaded machine cannot turn it into an alarm.
+func reverseReturns(rev func()) string {
+	const hung = "Reverse on a geometry without a layout did not return (waited 15 s; stride 0 in a loop that steps by the stride)"
+	if reverseHung.Load() {
+		return hung
+	}
+	done := make(chan any, 1)
+	go func() {
+		defer func() { done <- recover() }()
+		rev()
+	}()
+	select {
+	case p := <-done:
+		if p != nil {
+			return fmt.Sprintf("Reverse panicked: %v", p)
+		}
+		return ""
+	case <-time.After(15 * time.Second):
+		reverseHung.Store(true)
+		return hung
+	}
 }
